@@ -316,3 +316,55 @@ Theorem C11_insertion_index_load_additive :
   forall rs1 rs2, ii_load rs2 (ii_load rs1 []) = ii_load (rs1 ++ rs2) [].
 Proof. exact ii_load_additive. Qed.
 Print Assumptions C11_insertion_index_load_additive.
+
+(* ---- index.GetFirst, InsertionIndex.Get ------------------------------------------------------------------- *)
+From GoCarProofs Require Import IndexGetFirst.
+
+(* GetFirst = the head of GetAll's callback sequence, ErrNotFound when it is empty: every index value *)
+Theorem C11_get_first_is_head_of_get_all :
+  forall i code d,
+    idx_getfirst i code d = match idx_getall i code d with [] => Err ENotFound | o :: _ => Ok o end.
+Proof. exact idx_getfirst_head. Qed.
+Print Assumptions C11_get_first_is_head_of_get_all.
+
+Theorem C11_get_first_is_head_of_get_all_insertion_index :
+  forall d ii,
+    ii_getfirst d ii = match ii_getall d ii with [] => Err ENotFound | o :: _ => Ok o end.
+Proof. exact ii_getfirst_head. Qed.
+Print Assumptions C11_get_first_is_head_of_get_all_insertion_index.
+
+(* on a loaded index it is the offset of a record carrying the key; not found exactly when none does *)
+Theorem C11_get_first_of_loaded_index :
+  forall (srt : list irec -> list irec) codec i0 rs code d,
+    (forall l, Permutation (srt l) l /\
+               StronglySorted (fun a b => bytes_leb (r_digest a) (r_digest b) = true) (srt l)) ->
+    idx_new codec = Some i0 ->
+    Forall (fun r => r_off r < two64 /\ r_code r < two64 /\ blen (r_digest r) + 8 <= max_width) rs ->
+    blen (compact rs) <= max_alloc ->
+    match idx_getfirst (idx_load_with srt rs i0) code d with
+    | Ok o => In o (if codec =? codec_sorted then spec_offsets_digest rs d else spec_offsets_mh rs code d)
+    | Err e => e = ENotFound /\
+               (if codec =? codec_sorted then spec_offsets_digest rs d else spec_offsets_mh rs code d) = []
+    end.
+Proof. exact idx_getfirst_load. Qed.
+Print Assumptions C11_get_first_of_loaded_index.
+
+(* InsertionIndex.Get: [choose] is llrb.Get's pick among the records with the key's digest (it depends
+   on the tree's shape; only "one of them, none iff there is none" is assumed).  Get answers with SOME
+   record of that DIGEST -- also when the key is a different CID (another codec or hash function) *)
+Theorem C11_insertion_index_get_returns_a_record_with_the_digest :
+  forall (choose : list irec -> option irec) d ii,
+    (forall l, match choose l with Some r => In r l | None => l = [] end) ->
+    match ii_get_with choose d ii with
+    | Ok o => exists r, In r ii /\ r_digest r = d /\ r_off r = o
+    | Err e => e = ENotFound /\ forall r, In r ii -> r_digest r <> d
+    end.
+Proof. exact ii_get_some_record_with_digest. Qed.
+Print Assumptions C11_insertion_index_get_returns_a_record_with_the_digest.
+
+Theorem C11_insertion_index_get_ignores_the_cid :
+  forall (choose : list irec -> option irec) r,
+    (forall l, match choose l with Some r => In r l | None => l = [] end) ->
+    ii_get_with choose (r_digest r) (ii_load [r] []) = Ok (r_off r).
+Proof. exact ii_get_ignores_cid. Qed.
+Print Assumptions C11_insertion_index_get_ignores_the_cid.
